@@ -1,4 +1,7 @@
 """C13 (copy/assignment are deep) and C14 (property registry) - ownership, flag-synchronisation and protocol rules"""
+import re
+
+from .canon import Canon
 from .extract import AnalysisBroken
 from .facts import as_assign, estr, need_names, unwrap, walk
 from .rule_g import iter_sites
@@ -306,24 +309,25 @@ def run_c14(ck, fb, fbd):
     ck.floor("internal_find_property_instantiations", len(fs), 20)
     bad_empty = bad_match = 0
     for f in fs:
-        need_names(f, ["type_name", "prop"], None, "C14.find")
-        pname = f.d["params"][0]["n"]
+        cn = Canon(f)
         rets = [(b, i, x) for b, i, x in f.tops() if x.get("k") == "ret" and b in f.reach()]
-        pos_ret = [(b, i, x) for b, i, x in rets if "prop_ptr_from_storage" in estr(x)]
+        pos_ret = [(b, i, x) for b, i, x in rets if "prop_ptr_from_storage" in cn.s(x.get("x"))]
         ok_empty = False
         for b, i, x in rets:
             if (b, i, x) in pos_ret:
                 continue
-            if any("empty()" in estr(c) and pol is True for c, pol, e in f.facts(b)):
+            if ("P0.empty()", True) in {(s_, p_) for s_, p_, c_ in cn.facts(b)}:
                 ok_empty = True
         # the loop is only reached when the name is not empty
-        loop_guard = all(any("empty()" in estr(c) and pol is False for c, pol, e in f.facts(b)) for b, i, x in pos_ret)
+        loop_guard = all(("P0.empty()", False) in {(s_, p_) for s_, p_, c_ in cn.facts(b)} for b, i, x in pos_ret)
         if not (ok_empty and loop_guard):
             bad_empty += 1
         for b, i, x in pos_ret:
-            at = {(estr(c), pol) for c, pol, e in f.facts(b)}
-            need = [lambda s: "shared()" in s, lambda s: "name()" in s and pname in s and "==" in s, lambda s: "internal_type_name()" in s and "type_name" in s and "==" in s]
-            if not all(any(pred(s) and pol is True for s, pol in at) for pred in need):
+            at = {(s_, p_) for s_, p_, c_ in cn.facts(b)}
+            m = re.fullmatch(r"optional\(prop_ptr_from_storage\((.*)\)\)", cn.s(x.get("x")))
+            E = m.group(1) if m else "?"
+            need = [("%s.shared()" % E, True), ("(%s.name() == P0)" % E, True), ("(%s.internal_type_name() == internal_type_name())" % E, True)]
+            if not (all(nd in at for nd in need) and E.startswith("each(storage_tracker(")):
                 bad_match += 1
         if not pos_ret:
             bad_match += 1
@@ -337,11 +341,11 @@ def run_c14(ck, fb, fbd):
             raise AnalysisBroken("no instantiation of ResourceManager::" + name)
         bad = 0
         for f in fs2:
-            need_names(f, ["prop"], None, "C14.create")
+            cn = Canon(f)
             creates = [(b, i, x) for b, i, x in f.nodes(("call",)) if x.get("pn", "").endswith("::internal_create_property")]
             for b, i, x in creates:
-                facts = [(estr(c), pol) for c, pol, e in f.facts(b)]
-                if not any("prop" in s and pol is False for s, pol in facts):
+                facts = [(s_, p_) for s_, p_, c_ in cn.facts(b)]
+                if not any(s.startswith("internal_find_property(P0)") and pol is False for s, pol in facts):
                     bad += 1
                 a = f.resolve(x.get("a", []))
                 if not (len(a) >= 3 and unwrap(a[2]).get("v") is True):
@@ -352,12 +356,12 @@ def run_c14(ck, fb, fbd):
     fs2 = insts("request_property")
     bad = 0
     for f in fs2:
-        need_names(f, ["prop"], None, "C14.create")
+        cn = Canon(f)
         pname = f.d["params"][0]["n"]
         creates = [(b, i, x) for b, i, x in f.nodes(("call",)) if x.get("pn", "").endswith("::internal_create_property")]
         for b, i, x in creates:
-            facts = [(estr(c), pol) for c, pol, e in f.facts(b)]
-            if not any("prop" in s and pol is False for s, pol in facts):
+            facts = [(s_, p_) for s_, p_, c_ in cn.facts(b)]
+            if not any(s.startswith("internal_find_property(P0)") and pol is False for s, pol in facts):
                 bad += 1
             a = f.resolve(x.get("a", []))
             sh = unwrap(a[2]) if len(a) >= 3 else None
@@ -379,7 +383,7 @@ def run_c14(ck, fb, fbd):
             raise AnalysisBroken("no instantiation of ResourceManager::" + name)
         bad_guard = bad_n = bad_flag = 0
         for f in fs2:
-            need_names(f, (["existing"] if name == "set_shared" else []), None, "C14.transition")
+            cn = Canon(f)
             pen = f.d["params"][1]["n"]
             throws = [(b, i, x) for b, i, x in f.nodes(("throw",)) if b in f.reach()]
             effects_pos = []
@@ -403,8 +407,8 @@ def run_c14(ck, fb, fbd):
                 for b, i in setters:
                     pass
                 # enabling: throws under anonymous() and under existing
-                conds = [{(estr(c), pol) for c, pol, e in f.facts(b)} for b, i, x in throws]
-                if not (any(any("anonymous()" in s and pol is True for s, pol in at) for at in conds) and any(any("existing" in s and pol is True for s, pol in at) for at in conds)):
+                conds = [{(s_, p_) for s_, p_, c_ in cn.facts(b)} for b, i, x in throws]
+                if not (any(any("anonymous()" in s and pol is True for s, pol in at) for at in conds) and any(any(s.startswith("internal_find_property(P0.name())") and pol is True for s, pol in at) for at in conds)):
                     bad_guard += 1
                 # disabling: set_persistent(_prop,false) on the !_enable path before the flag write
                 sp = [(b, i) for b, i, nm in effects_pos if nm == "set_persistent"]
